@@ -701,7 +701,10 @@ pub fn run_on_this_thread(plan: &Plan, keep_trace: bool) -> RunOutput {
             for l in lines {
                 bad("C11", "audit", l);
             }
-            if !viol.borrow().is_empty() {
+            // like the core engine: under a check, only a violation of the property being checked
+            // ends the run (an audit line describes latent damage whose symptom may come later)
+            let stop_on = plan.knobs.stop_on.as_str();
+            if viol.borrow().iter().any(|v| stop_on.is_empty() || v.property == stop_on || (stop_on != "C11" && v.property != "C11")) {
                 break;
             }
         }
